@@ -9,3 +9,10 @@ package patch
 //@   results a, err
 //@   ensures (err == nil) == actionOK(p)
 //@   ensures err == nil ==> a == actionOf(p)
+
+// ---- C11: the patches derived from an opaque document are a function of the document text ----
+//@ spec docPatches(doc string) []Patch
+//@ func PatchesFromDocument
+//@   trusted
+//@   results ps, err
+//@   ensures err == nil ==> ps == docPatches(doc)
